@@ -328,6 +328,7 @@ def run(run):
     run.rid_prefix = "G."
     try:
         c02.bip32_element_table(run, "R2c")
+        c02.bip32_path_elements(run, "R2b")
     finally:
         run.rid_prefix = ""
     # ---------------------------------------------------------------- R5
